@@ -42,14 +42,15 @@ RULE = ('random model specs (explicit/implicit harness components, nested groups
         'linear: generated, DirectSolver dict/dense/csc, ScipyKrylov (+LNBGS precon), LNBGS, LNBJ} x {fwd, rev}; '
         'distinct = (scaling features, wiring features of scaled sources, solver tree, cell); non-trivial = the '
         'scaled twin really has output or residual scaling active and every solver of both twins converged')
-MIN_JUDGED = {'quick': 150, 'thorough': 3000}
+MIN_JUDGED = {'quick': 300, 'thorough': 8000}
 REQUIRED_COUNTERS = [
     'obs:output-scaling-active', 'obs:resid-scaling-active', 'obs:input-scaling-active',
     'obs:plain-twin-unscaled', 'hook:scale_to_norm', 'hook:scale_to_phys',
     'obs:values-compared', 'obs:inputs-compared', 'obs:totals-compared', 'obs:twin-vs-twin-compared',
     'cell:nl=newton', 'cell:nl=newton-armijo', 'cell:nl=newton-bounds', 'cell:nl=newton-subsolve',
     'cell:nl=broyden', 'cell:nl=nlbgs', 'cell:nl=nlbgs-aitken', 'cell:nl=nlbgs-apply', 'cell:nl=nlbj',
-    'cell:ln=direct-dict', 'cell:ln=direct-dense', 'cell:ln=direct-csc', 'cell:ln=krylov', 'cell:ln=lnbgs',
+    'cell:ln=runonce', 'cell:ln=direct-dict', 'cell:ln=direct-dense', 'cell:ln=direct-csc', 'cell:ln=krylov',
+    'cell:ln=lnbgs', 'cell:ln=lnbj',
     'cell:mode=fwd', 'cell:mode=rev',
     'scal:ivc', 'scal:implicit', 'scal:explicit', 'scal:array', 'scal:negative-ref', 'scal:ref<ref0',
     'scal:res_ref', 'scal:ref0', 'scal:units-on-scaled-src', 'scal:src_indices-on-scaled-src',
@@ -90,6 +91,7 @@ NLV = {
     'nlbj': {'type': 'nlbj'},
 }
 LNV = {
+    'runonce': {'type': 'runonce'},          # the default LinearRunOnce (legal on an acyclic root only)
     'direct-dict': {'type': 'direct', 'assemble_jac': False},
     'direct-dense': {'type': 'direct', 'assemble_jac': True, 'jac_type': 'dense'},
     'direct-csc': {'type': 'direct', 'assemble_jac': True, 'jac_type': 'csc'},
@@ -103,7 +105,7 @@ ITERATIVE = ('krylov', 'krylov+lnbgs', 'lnbgs', 'lnbj')
 
 def shards(tier, seed):
     n = 16 if tier == 'quick' else 64
-    per = 6 if tier == 'quick' else 40
+    per = 16 if tier == 'quick' else 100
     return [{'seed': seed * 100000 + i * 1000, 'n': per, 'tier': tier} for i in range(n)]
 
 
@@ -128,15 +130,28 @@ def add_scaling(spec, rng, wide, p_known=None):
         return _r4(10 ** rng.uniform(lo, hi))
     nsc = 0
     outs = [(c, oo) for c in sp['comps'] for oo in c['outputs']]
+    # 'sparse' models carry one kind of scaling on one or two outputs (isolates mechanisms); 'dense' ones mix
+    sparse = rng.random() < 0.35
+    if sparse:
+        chosen = set(id(oo) for _, oo in rng.sample(outs, min(len(outs), rng.randint(1, 2))))
+        kinds = rng.choice([['ref'], ['ref0'], ['res_ref'], ['ref', 'ref0'], ['ref', 'res_ref'], ['ref0', 'res_ref']])
     for k, (c, oo) in enumerate(outs):
-        pr = 0.5 if c['kind'] == 'ivc' else 0.75
-        if rng.random() >= pr and not (nsc == 0 and k == len(outs) - 1):
-            continue
+        if sparse:
+            if id(oo) not in chosen:
+                continue
+        else:
+            pr = 0.5 if c['kind'] == 'ivc' else 0.75
+            if rng.random() >= pr and not (nsc == 0 and k == len(outs) - 1):
+                continue
         nsc += 1
         n = int(np.prod(oo['shape']))
         arr = rng.random() < 0.4
         m = n if arr else 1
-        which = [x for x in ('ref', 'ref0', 'res_ref') if rng.random() < 0.6] or [rng.choice(['ref', 'ref0', 'res_ref'])]
+        if sparse:
+            which = list(kinds)
+        else:
+            which = [x for x in ('ref', 'ref0', 'res_ref') if rng.random() < 0.6] or \
+                [rng.choice(['ref', 'ref0', 'res_ref'])]
         vals = {}
         if 'ref' in which or 'ref0' in which:
             a1s, r0s = [], []
@@ -199,18 +214,19 @@ def avoid_known(sp, rng, p_known, mag):
     the affected models (so the finding stays observed) and move the others just outside it, so that they exercise
     the rest of the machinery instead of failing for a reason that is already on record."""
     # {array ref0, scalar ref, src_indices selecting a different number of entries}: give the equivalent array ref
+    # (this one aborts final_setup, so it is kept least often)
     for oo in known_ref0_defect_outputs(sp):
-        if rng.random() >= p_known:
+        if rng.random() >= 0.8 * p_known:
             oo['ref'] = np.full(oo['shape'], float(oo.get('ref', 1.0))).tolist()
     # explicit component with output scaling only: add a residual scale to one of its outputs
     for c in known_solve_linear_defect_comps(sp):
-        if rng.random() >= p_known:
+        if rng.random() >= 2.0 * p_known:
             oo = rng.choice(c['outputs'])
             v = mag()
             oo['res_ref'] = v if abs(v - 1.0) > 1e-6 else 2.0
     # matrix-free explicit component with output scaling: keep only its residual scaling
     for c in known_matfree_defect_comps(sp):
-        if rng.random() >= p_known:
+        if rng.random() >= 2.0 * p_known:
             for oo in c['outputs']:
                 had = oo.pop('ref', None) is not None
                 had = (oo.pop('ref0', None) is not None) or had
@@ -769,6 +785,27 @@ def _bounds(spec_cell, fm, u, p, Ju, Jp, sv, pv, ofi, wrti):
     return out
 
 
+def _relevant_wrt(spec_cell, fm, Ju, Jp):
+    """spec['wrt'], minus - when a ScipyKrylov solver takes part - the parameters no response depends on: GMRES
+    reports a breakdown on the zero operator that relevance leaves for such a seed (plain twin as well; not a
+    scaling matter), which would only make the case unjudgeable."""
+    wrt, of = spec_cell['wrt'], spec_cell['of']
+    kry = [1 for nl, ln in tree_solvers(spec_cell) if ln in ('krylov', 'krylov+lnbgs')]
+    if not kry or not fm.nstate:
+        return list(wrt)
+    B = (Ju != 0).astype(float)
+    reach = np.eye(fm.nstate)
+    for _ in range(fm.nstate):
+        new = ((reach + reach @ B) > 0).astype(float)
+        if np.array_equal(new, reach):
+            break
+        reach = new
+    dep = (reach @ (Jp != 0).astype(float)) > 0
+    rows = np.concatenate([np.arange(*fm.soff[o]) for o in of])
+    keep = [w for w in wrt if dep[np.ix_(rows, np.arange(*fm.poff[w]))].any()]
+    return keep or list(wrt)
+
+
 def _ref_totals(fm, of, wrt, u, p):
     S, _ = fm.du_dp(u, p)
     return np.vstack([np.hstack([fm.total(o, w, u, p, S) for w in wrt]) for o in of])
@@ -827,7 +864,7 @@ def _run_cell(G, fm, spec, sspec, feats, scal, unscal, ustar, p, Ju, Jp, cell, c
         acc.skip('cell-not-applicable')
         return
     nl_name, ln_name = cell_names(sp_p, nlv, lnv)
-    of, wrt = spec['of'], spec['wrt']
+    of, wrt = spec['of'], _relevant_wrt(sp_p, fm, Ju, Jp)
     of_names = [G.top_name(spec, o) for o in of]
     wrt_names = [G.top_name(spec, w) for w in wrt]
     fkey = '+'.join(feats)
